@@ -5,12 +5,14 @@ import YaegiVerif.Proofs.C11Pieces
 /-
   C11 — evaluating a program piecewise equals evaluating it whole. Property theorems.
 
-  Full statement (not true of the unchanged code, see the witnesses):
+  Full statement (not true of the code, see the witnesses of the findings that are still open):
     for every program `items` and every cut list,
       evalPieces (split cuts items) = evalWhole items        (output, global frame, scope, code).
-  Proved: `chunks_eq_whole` for every cut list on the decidable domain `Dom ∧ initsIndirect`,
-  `texts_eq_whole_partial` for every session whose texts keep each initialiser with the variables it
-  names, for the facts read from the source (`…_generated`).
+  Proved: `chunks_eq_whole` for every cut list on the decidable domain `Dom` — since the repair of
+  F11-1 (a9bfd4c) without any condition on what the initialisers name —, `texts_eq_whole_partial`
+  for every session of texts of one kind each, for the facts read from the source (`…_generated`).
+  Repaired and now regression examples: F11-1 (initialiser naming a variable of an earlier Eval),
+  F11-7 (method declared again), F11-8 (main re-run).
 -/
 namespace YaegiVerif.Props.C11
 open YaegiVerif YaegiVerif.Piecewise YaegiVerif.Proofs.C11
@@ -20,7 +22,8 @@ open YaegiVerif YaegiVerif.Piecewise YaegiVerif.Proofs.C11
 /-- tie: the choices the model is parametrised by, as re-read from the source: resizeFrame copies
     the old frame, gta assigns the function symbol unconditionally, scope.add allocates at the end,
     the incremental parser prefixes exactly const/func/import/type/var and wraps the rest in main,
-    CompileAST appends main to the init list -/
+    CompileAST appends main to the init list of the program that declares it, addMethod replaces a
+    method declared again, genGlobalVarDecl waits only for the variables of its own call -/
 theorem facts_tie : Generated.C11.facts = Expected.C11.facts := by decide
 
 /-- tie: the call graph of Eval, EvalPath, eval, Compile, compileSrc, CompileAST, Execute -/
@@ -36,7 +39,7 @@ theorem source_tie : Generated.C11.sourceHashes = Expected.C11.sourceHashes := b
 
 abbrev fx0 : Facts := Expected.C11.facts
 
-theorem good_expected : Good fx0 := ⟨rfl, rfl, by decide, by decide, by decide, by decide, by decide, rfl⟩
+theorem good_expected : Good fx0 := ⟨rfl, rfl, by decide, by decide, by decide, by decide, by decide, rfl, rfl, rfl⟩
 
 theorem good_generated : Good Generated.C11.facts := facts_tie ▸ good_expected
 
@@ -88,59 +91,68 @@ def chunks_eq_whole_full_statement : Prop :=
     evalPieces fx0 fuel State.empty (split cuts items) = evalWhole fx0 fuel State.empty items
 
 /-- **a session equals the whole program** (partial: on the domain). The texts of the session are
-    of one kind each (what the incremental parser accepts), their concatenation is a program of the
+    of one kind each (what the incremental parser accepts) and their concatenation is a program of the
     domain (definition before use with fresh names, variables before init functions before
-    statements, declarations do not mention the variables of main, no `main`), and every initialiser
-    names only variables declared in its own text. Then feeding the texts one by one to ONE
-    interpreter ends in exactly the state of evaluating the program in one piece: same output, same
-    global frame, same scope, same compiled functions. From any state a session can reach. -/
+    statements, declarations do not mention the variables of main, the program does not declare
+    `main`). Then feeding the texts one by one to ONE interpreter ends in exactly the state of
+    evaluating the program in one piece: same output, same global frame, same scope, same compiled
+    functions. From any state a session can reach (it may have declared and run a `main`). Since
+    the repairs of F11-1 and F11-8 nothing is asked of what the initialisers name nor of the
+    session before. -/
 theorem texts_eq_whole_partial (fuel : Nat) (s : State) (texts : List (List Item)) (hwf : WF s)
-    (hdom : Dom fx0 s texts.flatten = true) (ht : ∀ t ∈ texts, homogeneous t = true ∧ depsLocal t = true) :
+    (hdom : Dom fx0 s texts.flatten = true) (ht : ∀ t ∈ texts, homogeneous t = true) :
     texts.foldl (evalText fx0 fuel) s = evalWhole fx0 fuel s texts.flatten :=
   texts_eq_whole fx0 good_expected fuel texts s hwf hdom ht
 
-/-- **chunks_eq_whole**: for a program of the domain whose initialisers name no variable directly,
-    EVERY way of cutting it gives the result of the whole program (outputs concatenate to the same
-    log, the final global state is equal). By induction over the texts of the cut program. -/
-theorem chunks_eq_whole (fuel : Nat) (items : List Item) (hdom : Dom fx0 State.empty items = true)
-    (hi : initsIndirect items = true) :
+/-- **chunks_eq_whole**: for a program of the domain, EVERY way of cutting it gives the result of
+    the whole program (outputs concatenate to the same log, the final global state is equal). By
+    induction over the texts of the cut program. -/
+theorem chunks_eq_whole (fuel : Nat) (items : List Item) (hdom : Dom fx0 State.empty items = true) :
     ∀ cuts, evalPieces fx0 fuel State.empty (split cuts items) = evalWhole fx0 fuel State.empty items :=
-  fun cuts => cuts_eq_whole fx0 good_expected fuel State.empty items WF_empty hdom hi cuts
+  fun cuts => cuts_eq_whole fx0 good_expected fuel State.empty items WF_empty hdom cuts
 
 /-- the same from any reachable state (a session continued) -/
-theorem chunks_eq_whole_from (fuel : Nat) (s : State) (hwf : WF s) (items : List Item) (hdom : Dom fx0 s items = true)
-    (hi : initsIndirect items = true) :
+theorem chunks_eq_whole_from (fuel : Nat) (s : State) (hwf : WF s) (items : List Item) (hdom : Dom fx0 s items = true) :
     ∀ cuts, evalPieces fx0 fuel s (split cuts items) = evalWhole fx0 fuel s items :=
-  fun cuts => cuts_eq_whole fx0 good_expected fuel s items hwf hdom hi cuts
+  fun cuts => cuts_eq_whole fx0 good_expected fuel s items hwf hdom cuts
 
 /-- the same for the facts regenerated from the source -/
-theorem chunks_eq_whole_generated (fuel : Nat) (items : List Item) (hdom : Dom Generated.C11.facts State.empty items = true)
-    (hi : initsIndirect items = true) :
+theorem chunks_eq_whole_generated (fuel : Nat) (items : List Item) (hdom : Dom Generated.C11.facts State.empty items = true) :
     ∀ cuts, evalPieces Generated.C11.facts fuel State.empty (split cuts items) = evalWhole Generated.C11.facts fuel State.empty items :=
-  fun cuts => cuts_eq_whole _ good_generated fuel State.empty items WF_empty hdom hi cuts
+  fun cuts => cuts_eq_whole _ good_generated fuel State.empty items WF_empty hdom cuts
+
+/-- no variable of a program of the domain ever waits for itself, wherever the chunk starts:
+    genGlobalVarDecl's "variable definition loop" cannot be reported (what F11-1 violated) -/
+theorem no_definition_loop_in_domain (s : State) (hwf : WF s) (items : List Item) (hdom : Dom fx0 s items = true) :
+    ∃ r, compileItems (regItems fx0 s.c.tab.nvars (s.c.tab, s.c.code.length) items).1 s.c.code.length items = some r ∧
+      varDepsOk fx0 s.c.tab.nvars (varDeps (s.c.code ++ r.1) r.2) = true := by
+  unfold Dom DefBeforeUse at hdom
+  simp only [Bool.and_eq_true] at hdom
+  obtain ⟨r, hr, _⟩ := scoped_compile fx0 _ items (s.c.tab, s.c.code.length) _ hdom.1.1.1 (Ext.refl _)
+  exact ⟨r, hr, varDepsOk_of_scoped fx0 good_expected s hwf items hdom.1.1.1 r hr⟩
 
 /-- what the equality of states says about the observations -/
 theorem chunks_eq_whole_observed (fuel : Nat) (items : List Item) (hdom : Dom fx0 State.empty items = true)
-    (hi : initsIndirect items = true) (cuts : List Nat) :
+    (cuts : List Nat) :
     (evalPieces fx0 fuel State.empty (split cuts items)).r.out = (evalWhole fx0 fuel State.empty items).r.out ∧
     (evalPieces fx0 fuel State.empty (split cuts items)).r.halt = (evalWhole fx0 fuel State.empty items).r.halt ∧
     ∀ x, (evalPieces fx0 fuel State.empty (split cuts items)).global x = (evalWhole fx0 fuel State.empty items).global x := by
-  rw [chunks_eq_whole fuel items hdom hi cuts]
+  rw [chunks_eq_whole fuel items hdom cuts]
   exact ⟨rfl, rfl, fun _ => rfl⟩
 
 /-- the invariant of sessions holds initially and is kept by every text of the domain (used above;
     stated for the record: indices below the frame size, function identities below the code size) -/
 theorem session_invariant (fuel : Nat) (s : State) (t rest : List Item) (hwf : WF s) (hdom : Dom fx0 s (t ++ rest) = true)
-    (hh : homogeneous t = true) (hne : t ≠ []) (hdt : depsLocal t = true) (hdr : depsLocal rest = true) :
+    (hh : homogeneous t = true) (hne : t ≠ []) :
     WF (evalText fx0 fuel s t) ∧ Dom fx0 (evalText fx0 fuel s t) rest = true := by
   cases t with
   | nil => exact absurd rfl hne
   | cons it tl =>
     rcases homogeneous_cases it tl hh with hd | hs
     · rw [evalText_decl fx0 good_expected fuel s it tl hd]
-      exact (evalChunk_append fx0 good_expected fuel .file s (it :: tl) rest hwf hdom (Or.inl ⟨rfl, hd⟩) hdt hdr).2
+      exact (evalChunk_append fx0 good_expected fuel .file s (it :: tl) rest hwf hdom (Or.inl ⟨rfl, hd⟩)).2
     · rw [evalText_stmt fx0 good_expected fuel s it tl hs]
-      exact (evalChunk_append fx0 good_expected fuel .block s (it :: tl) rest hwf hdom (Or.inr ⟨rfl, hs⟩) hdt hdr).2
+      exact (evalChunk_append fx0 good_expected fuel .block s (it :: tl) rest hwf hdom (Or.inr ⟨rfl, hs⟩)).2
 
 /-! non-vacuity: a program of the domain with a variable, a logging function that writes it, a
     recursive function, a method, an init function, statements and a variable of main — cut
@@ -158,7 +170,7 @@ def demo : List Item :=
    .define "l" (.mcall "T" "M" (.num 10) (.num 5)),
    .stmt (.print 4 (.bin .add (.glob "l") (.glob "a")))]
 
-theorem dom_nonempty : Dom fx0 State.empty demo = true ∧ initsIndirect demo = true ∧ demo.length = 10 := by decide
+theorem dom_nonempty : Dom fx0 State.empty demo = true ∧ demo.length = 10 := by decide
 
 example : (evalWhole fx0 40 State.empty demo).r.out = [(1, 3), (2, 3), (3, 24), (1, 8), (4, 26)] := by decide
 example : (evalPieces fx0 40 State.empty (split [1, 1, 1, 1, 1, 1, 1, 1, 1] demo)).r.out = [(1, 3), (2, 3), (3, 24), (1, 8), (4, 26)] := by decide
@@ -200,11 +212,11 @@ def demoConst : List Item :=
    .stmt (.print 1 (.glob "Blue")), .stmt (.print 2 (.glob "Monday")),
    .stmt (.print 3 (.call "scale" (.glob "Wednesday")))]
 
-theorem const_dom : Dom fx0 State.empty demoConst = true ∧ initsIndirect demoConst = true := by decide
+theorem const_dom : Dom fx0 State.empty demoConst = true := by decide
 
 theorem const_pieces_eq_whole (fuel : Nat) :
     ∀ cuts, evalPieces fx0 fuel State.empty (split cuts demoConst) = evalWhole fx0 fuel State.empty demoConst :=
-  chunks_eq_whole fuel demoConst const_dom.1 const_dom.2
+  chunks_eq_whole fuel demoConst const_dom
 
 example : (evalPieces fx0 20 State.empty (split [1, 3, 1, 3, 1] demoConst)).r.out = [(1, 2), (2, 1), (3, 30)] := by decide
 example : (evalWhole fx0 20 State.empty demoConst).global "Wednesday" = some 3 := by decide
@@ -213,7 +225,7 @@ example : (evalWhole fx0 20 State.empty demoConst).global "Wednesday" = some 3 :
 theorem iota_reset_needed :
     (evalWhole { fx0 with iotaResetAtEnd := false } 20 State.empty demoConst).r.out = [(1, 3), (2, 5), (3, 70)] := by decide
 
-/-! ### what the domain excludes: witnesses (each is the replay input of a listed finding) -/
+/-! ### what the domain excludes: witnesses (each is the replay input of a finding that is still open) -/
 
 /-- forward reference across a cut: `k` calls `h`, `h` arrives in a later text — the session stops
     with "undefined", the whole program runs (F11-2) -/
@@ -230,13 +242,44 @@ theorem chunks_eq_whole_witness : ¬ chunks_eq_whole_full_statement := by
   revert this
   decide
 
-/-- an initialiser that names a variable of an earlier text: "variable definition loop" (F11-1) -/
+/-! regression, F11-1 (repaired by a9bfd4c): an initialiser that names a variable of an earlier text.
+    The program is in the domain, so `chunks_eq_whole` covers it; the replay input of the finding,
+    and with the fact of the code before the repair the "variable definition loop" it reported -/
 def wVarDep : List Item := [.var "a" (.num 1), .var "b" (.bin .add (.glob "a") (.num 1)), .stmt (.print 1 (.glob "b"))]
 
-theorem var_names_earlier_var_witness :
-    (evalPieces fx0 20 State.empty (split [1] wVarDep)).r.halt = some .defloop ∧
-    (evalPieces fx0 20 State.empty (split [2] wVarDep)).r.out = [(1, 2)] ∧
+theorem var_names_earlier_var_regression :
+    Dom fx0 State.empty wVarDep = true ∧
+    (evalPieces fx0 20 State.empty (split [1] wVarDep)).r.out = [(1, 2)] ∧
+    (evalPieces fx0 20 State.empty (split [1] wVarDep)).r.halt = none ∧
     (evalWhole fx0 20 State.empty wVarDep).r.out = [(1, 2)] := by decide
+
+theorem var_names_earlier_var_every_cut (fuel : Nat) :
+    ∀ cuts, evalPieces fx0 fuel State.empty (split cuts wVarDep) = evalWhole fx0 fuel State.empty wVarDep :=
+  chunks_eq_whole fuel wVarDep var_names_earlier_var_regression.1
+
+/-- the same through a function literal and through the body of a function (getVarDependencies follows both) -/
+example : (evalPieces fx0 20 State.empty (split [1, 1, 1]
+    [.var "a" (.num 1), .func "f" ⟨none, [], .bin .add (.glob "a") .arg⟩, .closure "c" ⟨none, [], .glob "a"⟩,
+     .var "b" (.call "f" (.num 1)), .stmt (.print 1 (.bin .add (.glob "b") (.callv "c" (.num 0))))])).r.out = [(1, 3)] := by decide
+
+/-- the code before the repair (the fact `depsPendingOnly` reverted): "variable definition loop" -/
+theorem pending_set_needed :
+    (evalPieces { fx0 with depsPendingOnly := false } 20 State.empty (split [1] wVarDep)).r.halt = some .defloop ∧
+    (evalPieces { fx0 with depsPendingOnly := false } 20 State.empty (split [2] wVarDep)).r.out = [(1, 2)] := by decide
+
+/-- what still is a definition loop (ab398ff): a variable whose initialiser depends on the variable
+    itself — directly, through a function of the same text, or in its own function literal; a
+    redeclaration `var a = a + 1` in a later text names the NEW `a` (registered before the text is
+    compiled). Go reports an initialization cycle. -/
+theorem self_dependency_is_a_loop :
+    ([[.var "a" (.num 1)], [.var "a" (.bin .add (.glob "a") (.num 1))]].foldl (evalText fx0 20) State.empty).r.halt = some .defloop ∧
+    ([[.var "a" (.num 1)], [.func "f" ⟨none, [], .glob "a"⟩, .var "a" (.call "f" (.num 0))]].foldl
+      (evalText fx0 20) State.empty).r.halt = some .defloop ∧
+    ([[.closure "c" ⟨some (.num 0), [], .callv "c" (.bin .sub .arg (.num 1))⟩]].foldl (evalText fx0 20) State.empty).r.halt
+      = some .defloop ∧
+    -- a function compiled by an EARLIER text keeps the old variable: no loop
+    ([[.var "a" (.num 1), .func "f" ⟨none, [], .glob "a"⟩], [.var "a" (.call "f" (.num 0))],
+      [.stmt (.print 1 (.glob "a"))]].foldl (evalText fx0 20) State.empty).r.out = [(1, 1)] := by decide
 
 /-- an initialiser with an effect, declared after a statement of an earlier text, runs after it;
     in the whole program it runs before (F11-3) -/
@@ -271,23 +314,78 @@ theorem redeclaration_witness :
     (evalPieces fx0 20 State.empty (split [1] wRedecl)).r.out = [(1, 2)] ∧
     (evalWhole fx0 20 State.empty wRedecl).r.halt = some .redeclared := by decide
 
-/-- redefining a method does not replace it (F11-7) -/
-theorem method_redefinition_witness :
-    ([[.type "T", .method "T" "M" ⟨none, [], .bin .add .recv .arg⟩], [.stmt (.print 1 (.mcall "T" "M" (.num 3) (.num 4)))],
-      [.method "T" "M" ⟨none, [], .bin .mul .recv .arg⟩], [.stmt (.print 2 (.mcall "T" "M" (.num 3) (.num 4)))]].foldl
-        (evalText fx0 20) State.empty).r.out = [(1, 7), (2, 7)] := by decide
+/-! regression, F11-7 (repaired by 3b1b93d): a method declared again by a later text replaces the
+    earlier one for the code compiled afterwards; code compiled before keeps the node it was
+    compiled against (as for functions) -/
+def hMethod : List (List Item) :=
+  [[.type "T", .method "T" "M" ⟨none, [], .bin .add .recv .arg⟩, .func "g" ⟨none, [], .mcall "T" "M" .arg (.num 1)⟩],
+   [.stmt (.print 1 (.mcall "T" "M" (.num 3) (.num 4)))],
+   [.method "T" "M" ⟨none, [], .bin .mul .recv .arg⟩],
+   [.stmt (.print 2 (.mcall "T" "M" (.num 3) (.num 4))), .stmt (.print 3 (.call "g" (.num 3)))]]
 
-/-- once a text has declared `main`, every later evaluation runs it again (F11-8) -/
-theorem main_rerun_witness :
-    ([[.func "main" ⟨none, [.print 5 (.num 0)], .num 0⟩], [.stmt (.print 1 (.num 1))]].foldl
-        (evalText fx0 20) State.empty).r.out = [(5, 0), (1, 1), (5, 0)] := by decide
+theorem method_redefinition_regression :
+    (hMethod.foldl (evalText fx0 20) State.empty).r.out = [(1, 7), (2, 12), (3, 4)] := by decide
+
+/-- the code before the repair (the fact `methodReplaces` reverted): the old body is still called -/
+theorem method_replace_needed :
+    (hMethod.foldl (evalText { fx0 with methodReplaces := false } 20) State.empty).r.out = [(1, 7), (2, 7), (3, 4)] := by decide
+
+/-- a method declared again is bound to the new node, every other method is where it was -/
+theorem method_redefine_binds_new (fx : Facts) (h : fx.methodReplaces = true) (st : Nat) (p : Tab × Nat) (t m : Name) (b : SBody) :
+    lookup (t, m) (regItem fx st p (.method t m b)).1.meths = some p.2 ∧
+    ∀ k, k ≠ (t, m) → lookup k (regItem fx st p (.method t m b)).1.meths = lookup k p.1.meths := by
+  simp only [regItem, h, if_true]
+  cases hl : lookup (t, m) p.1.meths with
+  | some v =>
+    simp only [Option.isSome_some, if_true, lookup_cons]
+    exact ⟨trivial, fun k hk => by rw [if_neg (fun e => hk e.symm)]⟩
+  | none =>
+    simp only [Option.isSome_none, Bool.false_eq_true, if_false]
+    refine ⟨by rw [lookup_append_none _ _ _ hl]; simp [lookup_cons], fun k hk => ?_⟩
+    cases hk' : lookup k p.1.meths with
+    | some w => exact lookup_append_some k w _ _ hk'
+    | none => rw [lookup_append_none _ _ _ hk', lookup_cons, if_neg (fun e => hk e.symm)]; rfl
+
+/-! regression, F11-8 (repaired by 2b45c53): `main` runs with the text that declares it and with no later one -/
+def hMain : List (List Item) :=
+  [[.func "main" ⟨none, [.print 5 (.num 0)], .num 0⟩], [.stmt (.print 1 (.num 1))], [.var "v" (.num 2)],
+   [.stmt (.print 2 (.glob "v"))]]
+
+theorem main_runs_once_regression :
+    (hMain.foldl (evalText fx0 20) State.empty).r.out = [(5, 0), (1, 1), (2, 2)] := by decide
+
+/-- the code before the repair (the fact `mainOwnOnly` reverted): every later text runs it again -/
+theorem main_own_needed :
+    (hMain.foldl (evalText { fx0 with mainOwnOnly := false } 20) State.empty).r.out
+      = [(5, 0), (1, 1), (5, 0), (5, 0), (2, 2), (5, 0)] := by decide
+
+/-- a `main` declared again runs once more, with the text that declares it again -/
+example : ([[.func "main" ⟨none, [.print 5 (.num 0)], .num 0⟩], [.stmt (.print 1 (.num 1))],
+    [.func "main" ⟨none, [.print 6 (.num 0)], .num 0⟩], [.stmt (.print 2 (.num 2))]].foldl (evalText fx0 20) State.empty).r.out
+    = [(5, 0), (1, 1), (6, 0), (2, 2)] := by decide
+
+/-- after a session that declared (and ran) `main`, a program of the domain still equals its pieces:
+    the state is reachable and `Dom` no longer asks anything of it -/
+theorem session_with_main_continues (fuel : Nat) :
+    ∀ cuts, evalPieces fx0 fuel (evalText fx0 20 State.empty [.func "main" ⟨none, [.print 5 (.num 0)], .num 0⟩]) (split cuts wVarDep)
+      = evalWhole fx0 fuel (evalText fx0 20 State.empty [.func "main" ⟨none, [.print 5 (.num 0)], .num 0⟩]) wVarDep := by
+  have hs : evalText fx0 20 State.empty [.func "main" ⟨none, [.print 5 (.num 0)], .num 0⟩] =
+      ⟨⟨⟨[("main", .fn 0)], [], 0, 0⟩, [⟨none, [.print 5 (.num 0)], .num 0⟩]⟩, ⟨[], [(5, 0)], none⟩⟩ := by decide
+  rw [hs]
+  refine chunks_eq_whole_from fuel _ ⟨⟨fun x v h => ?_, fun k f h => ?_⟩, fun b hb => ?_, rfl⟩ wVarDep (by decide)
+  · simp only [lookup] at h
+    split at h <;> simp at h
+    subst h; simp [SymOk]
+  · simp [lookup] at h
+  · simp only [List.mem_singleton] at hb
+    subst hb; decide
 
 /-! the model is sensitive to the facts: with a mutated fact the session differs from the whole program -/
 
 def wFrame : List Item := [.var "a" (.num 5), .var "b" (.num 6), .stmt (.print 1 (.glob "a"))]
 
 theorem resize_copy_needed :
-    Dom fx0 State.empty wFrame = true ∧ initsIndirect wFrame = true ∧
+    Dom fx0 State.empty wFrame = true ∧
     (evalPieces { fx0 with resizeCopiesPrefix := false } 20 State.empty (split [1] wFrame)).r.out = [(1, 0)] ∧
     (evalWhole { fx0 with resizeCopiesPrefix := false } 20 State.empty wFrame).r.out = [(1, 5)] := by decide
 
@@ -372,7 +470,7 @@ theorem redefine_sees_new (fx : Facts) (hg : Good fx) (hfo : fx.funcOverwrites =
   · rw [redefine_eq fx hg]
     unfold evalChunk
     simp [hasDup, Item.declName, regItems, localsOk, stmtsOk, Item.isStmt, defineNames, compileItems, compileItem, hc,
-      varDepsOk, Item.initVars]
+      varDepsOk, varDeps, typeLoop]
   · intro a
     simp only [resolveE, hl]
     cases resolveE (redefine fx fuel s f b).c.tab a <;> rfl
